@@ -9,12 +9,12 @@ Property theorems only (helper lemmas live in `Lemmas/DataReader.lean`, `Lemmas/
 * MODEL (`Model/Value.lean`): `Elem`/`PyVal` (the Python values of the property's domain; a dict
   inside a list is not representable, floats are given by their `repr`), `Expr` (what the
   constructed objects hold), `renderElem/renderExpr/renderBinding` (transliteration of
-  `coerce_expression`, `Primitive`, `FloatExpression`, `NixList`, `Binding`, `AttributeSet`), and the
+  `coerce_expression`, `_float_literal`, `Primitive`, `FloatExpression`, `NixList`, `Binding`, `AttributeSet`), and the
   five container contexts `Ctx` with `renderCtx`.
 * SPEC (`Model/DataReader.lean`, `Model/ValueSpec.lean`): `readData`/`readBinding` — how Nix reads a
   text of the data fragment (lexer rules of Nix for INT/FLOAT/ID/strings; a unary minus is accepted
   where an operator expression may stand — binding value, top level, inside parentheses — never
-  bare as a list element); `denote`/`expected` — the data a
+  bare as a list element; a float is the real number its literal denotes, `decValue`); `denote`/`expected` — the data a
   Python value is; `ctxInDomain` — the property's domain; `ctxReadable` — the decidable side
   condition under which the code does keep the value.
 
@@ -35,6 +35,9 @@ theorem tie_literals :
     Gen.stringEscapesInterpolation = some stringEscapesInterpolation := by decide
 theorem tie_coerce_order :
     Gen.coerceOrder = some coerceOrder ∧ Gen.primitiveOrder = some primitiveOrder := by decide
+/-- `coerce_expression` spells a float through `_float_literal`: `.0` is put in front of the `e` of a
+    repr without `.`. -/
+theorem tie_float_literal : Gen.floatLiteralRule = some floatLiteralRule := by decide
 /-- `NixList` renders its items through `_coerce_list_item` (negative number literals in a
     `Parenthesis`), probes them for newlines through plain `coerce_expression`. -/
 theorem tie_list_item_paren :
@@ -91,7 +94,8 @@ theorem readBinding_renderBinding (k : Text) (x : Expr) (indent : Nat) (inline :
 
 /-- **Partial theorem (what holds of the code).** In every container context of the construction
     API, a value satisfying the decidable side condition `ctxReadable` (identifier keys, strings
-    without `${`; floats whose repr is a Nix float token, integers within 64 bits) renders to text
+    without `${`; floats whose spelled literal is a Nix float token denoting the number of the repr —
+    true of every Python repr, `float_repr_literal_ok` —, integers within 64 bits) renders to text
     that Nix reads back as exactly that value — negative numbers included, wherever they stand. -/
 theorem roundtrip_partial (c : Ctx) (h : ctxReadable c = true) :
     readCtx c (renderCtx c) = some (expected c) := by
@@ -130,19 +134,29 @@ theorem roundtrip_partial (c : Ctx) (h : ctxReadable c = true) :
     simp only [readCtx, renderCtx, expected]
     rw [readData_renderExpr _ 0 false h1, h2, denoteBs_bindAll]
 
-/-- For values of the property's domain the side condition is exactly "avoids the two documented
-    defects": no float whose repr lacks a `.`, no integer outside 64 bits (`ctxAvoids`; the harness
-    classifies failing inputs with the same tests). -/
+/-- For values of the property's domain the side condition is exactly "avoids the documented
+    defect": no integer outside 64 bits (`ctxAvoids`; the harness classifies failing inputs with the
+    same test). -/
 theorem readable_iff_avoids (c : Ctx) (hd : ctxInDomain c = true) : ctxReadable c = ctxAvoids c :=
   ctxReadable_eq_avoids c hd
 
-/-- For the repr of a finite Python float, being a Nix float token is exactly having a `.`. -/
+/-- For the repr of a finite Python float, being a Nix float token is exactly having a `.` (which is
+    why the repr itself cannot be written: `1e+16` is not a float token). -/
 theorem float_repr_readable_iff_dot (r : Text) (h : isPyFloatRepr r = true) :
     isNixFloat (unsignedRepr r) = (unsignedRepr r).contains '.' :=
   pyFloatRepr_nixFloat_iff_dot r h
 
-/-- **The property on its domain, minus the documented defects.** Every value of the domain that
-    avoids the two defects is read back exactly, in every context. -/
+/-- The literal every repr of a finite Python float is spelled with (`1e+16` ↦ `1.0e+16`, all others
+    unchanged) is a Nix float token with the sign of the repr, denoting the same real number. -/
+theorem float_repr_literal_ok (r : Text) (h : isPyFloatRepr r = true) :
+    isNixFloat (unsignedRepr (floatLiteral r)) = true ∧
+    isNegText (floatLiteral r) = isNegText r ∧
+    decValue (unsignedRepr (floatLiteral r)) = decValue (unsignedRepr r) := by
+  have := pyFloatRepr_litOk r h
+  simpa [floatLitOk, and_assoc] using this
+
+/-- **The property on its domain, minus the documented defect.** Every value of the domain that
+    avoids it is read back exactly, in every context. -/
 theorem roundtrip_domain (c : Ctx) (hd : ctxInDomain c = true) (ha : ctxAvoids c = true) :
     readCtx c (renderCtx c) = some (expected c) :=
   roundtrip_partial c (by rw [readable_iff_avoids c hd]; exact ha)
@@ -176,6 +190,32 @@ theorem neg_in_list_spelling :
     renderCtx (.binding "k".toList (.elem (.list [.int (-1)]))) = "k = [ (-1) ];".toList ∧
     renderCtx (.binding "k".toList (.elem (.int (-1)))) = "k = -1;".toList := by decide
 
+/-- **Floats whose repr has an exponent and no `.`** (repaired defect C13-float-exponent-no-dot;
+    this replaces the former counterexamples `cex_float_no_dot`, `cex_float_no_dot_binding`). The
+    repr of any finite Python float, as a list element or as a binding value, at any indent and
+    inline flag, reads back as a float of the same sign denoting the same number. -/
+theorem float_repr_roundtrip (r : Text) (h : isPyFloatRepr r = true) (k : Text) (hk : isDataKey k = true)
+    (indent : Nat) (inline : Bool) :
+    readData (renderElem (.list [.float r]) indent inline) = some (.list [floatData r]) ∧
+    readBinding (renderBinding k (.raw (.float r)) indent inline) = some (k, floatData r) := by
+  have hr : elemReadable (.float r) = true := by simpa [elemReadable] using pyFloatRepr_litOk r h
+  constructor
+  · have := readData_renderExpr (.raw (.list [.float r])) indent inline
+      (by simpa [exprReadable, elemReadable, elemsReadable] using hr)
+    simpa [renderExpr, denoteX, denoteE, denoteEs] using this
+  · have := readBinding_renderBinding k (.raw (.float r)) indent inline hk (by simpa [exprReadable] using hr)
+    simpa [denoteX, denoteE] using this
+
+/-- The spelling: `1e+16` is written `1.0e+16`, `1e-07` is written `1.0e-07`, a negative one in a list
+    is parenthesised, a repr with a `.` is written as it is; and `1.0e+16` denotes the number of
+    `1e+16` (both `1 × 10^16`). -/
+theorem float_no_dot_spelling :
+    renderCtx (.list [.float "1e+16".toList]) = "[ 1.0e+16 ]".toList ∧
+    renderCtx (.binding "a".toList (.elem (.float "1e-07".toList))) = "a = 1.0e-07;".toList ∧
+    renderCtx (.list [.float "-5e-324".toList]) = "[ (-5.0e-324) ]".toList ∧
+    renderCtx (.list [.float "1.5e+16".toList, .float "0.1".toList]) = "[\n  1.5e+16\n  0.1\n]".toList ∧
+    decValue "1.0e+16".toList = decValue "1e+16".toList ∧ decValue "1e+16".toList = ⟨1, 16⟩ := by decide
+
 /-! ## 3. The full statement, and where the code violates it -/
 
 /-- FULL statement of the property's read-back clause: every value of the domain (dicts with
@@ -183,23 +223,6 @@ theorem neg_in_list_spelling :
     None, every finite float's repr), in every container context. False of the current code. -/
 def RoundTripFull : Prop :=
   ∀ c : Ctx, ctxInDomain c = true → readCtx c (renderCtx c) = some (expected c)
-
-/-- `NixList([1e16]).rebuild()` is `[ 1e+16 ]`: `1e+16` is not a Nix float token.
-    Open known finding C13-float-exponent-no-dot. -/
-theorem cex_float_no_dot : ¬ RoundTripFull := by
-  intro h
-  have h1 := h (.list [.float "1e+16".toList]) (by decide)
-  have h2 : (readCtx (.list [.float "1e+16".toList]) (renderCtx (.list [.float "1e+16".toList]))).isSome = false := by
-    decide
-  rw [h1] at h2; cases h2
-
-/-- The same in binding position: `a = 1e-07;` is the application `1 e-07`. -/
-theorem cex_float_no_dot_binding : ¬ RoundTripFull := by
-  intro h
-  have h1 := h (.binding "a".toList (.elem (.float "1e-07".toList))) (by decide)
-  have h2 : (readCtx (.binding "a".toList (.elem (.float "1e-07".toList)))
-      (renderCtx (.binding "a".toList (.elem (.float "1e-07".toList))))).isSome = false := by decide
-  rw [h1] at h2; cases h2
 
 /-- `a = 9223372036854775808;` is rejected by Nix (`invalid integer`).
     Open known finding C13-int-out-of-range. -/
@@ -255,6 +278,8 @@ example : ctxInDomain (.setItemOn [("a".toList, .elem (.int 1))] true "k".toList
     ctxAvoids (.setItemOn [("a".toList, .elem (.int 1))] true "k".toList (.dict [("x".toList, .elem (.float "1.5e-07".toList))])) = true := by
   decide
 example : ctxInDomain (.list [.float "1e+16".toList, .int (-1)]) = true ∧
-    ctxReadable (.list [.float "1e+16".toList]) = false ∧ ctxReadable (.list [.int (-1), .float "-0.5".toList]) = true := by decide
+    ctxReadable (.list [.float "1e+16".toList, .float "-1e-07".toList]) = true ∧
+    ctxReadable (.list [.int (-1), .float "-0.5".toList]) = true ∧
+    ctxReadable (.list [.int 9223372036854775808]) = false := by decide
 
 end Nima.C13
